@@ -228,6 +228,14 @@ def one(job):
             re_ = sim.run_sim(file_prefix=os.path.join(d, "e_%s" % u), version=2.2)
             E = table(s, re_, names_n, names_l)
             if sid % 6 == 5:
+                # a tank that sits at a limit for several report steps is shut in and re-opened over and over; EPANET re-opens at
+                # the next hydraulic step, WNTR within seconds: levels drift apart by decimetres although both respect the
+                # limits (recorded as a known finding; a WNTR level outside the limits is never excused)
+                tk = next(n for n in s["nodes"] if n["type"] == "T")
+                le = [float(common.unnum(r["num"]["p_" + tk["name"]])) for r in E]
+                lw = [float(common.unnum(r["num"]["p_" + tk["name"]])) for r in W]
+                out["limit_cycling"] = (sum(1 for x in le if abs(x - tk["maxl"]) < 0.1 or abs(x - tk["minl"]) < 0.1) >= 3 and
+                                        all(tk["minl"] - 0.05 <= x <= tk["maxl"] + 0.05 for x in lw))
                 # tank-limit subjects: the engines shut a full / empty tank in and re-open it by different event logic (EPANET
                 # inserts exact fill times, WNTR whole seconds and a head tolerance), which moves levels by centimetres:
                 # heads and pressures are compared at 0.1 m (a tank that is not shut in at all is off by metres)
@@ -298,6 +306,8 @@ def main(tier, replay):
             tag = " [pattern step < hydraulic step with tanks]" if o["pat_lt_h"] and kind == "agree" else ""
             if o.get("pump_reverse") and kind == "agree":
                 tag += " [WNTR reports reverse flow through an open pump]"
+            if o.get("limit_cycling") and kind == "agree":
+                tag += " [tank cycling at a level limit, both engines inside the limits]"
             ck.violation(cl, "%s :: unit_family=%s%s" % (cl, "US" if u in US else "metric", tag), {"seed": o["seed"], "unit": u})
     ck.cov["programs"] = ck.cov["counters"].get("programs", 0)
     ck.cov["disagreements_checked"] = len(cases)
